@@ -58,6 +58,7 @@ type vMark struct {
 	lastDone     bool
 	lastAb       bool
 	digit        int // when > 0 the row carries this order mark (vMarkText)
+	nl           int // newlines written after the row (extender fillers write whole lines)
 	failAt       int // return an error from the k-th Fill (1-based), 0 = never
 	rec          *vFrameRec
 	framesAtFail int // frames written when the failing Fill was called (-1: has not failed)
@@ -76,7 +77,7 @@ func (m *vMark) Fill(w io.Writer, st decor.Statistics) error {
 		_, err := io.WriteString(w, vMarkText(m.width, 0, m.digit))
 		return err
 	}
-	_, err := io.WriteString(w, vMakeText(m.width, 0))
+	_, err := io.WriteString(w, vMakeText(m.width, m.nl))
 	return err
 }
 
@@ -144,8 +145,10 @@ func (e *vEnv) vFinish(id string, bars ...*Bar) {
 	}
 	nb, err := e.p.Add(1, nil)
 	vAssert(nb == nil && err == ErrDone, id+".late-add-is-ErrDone")
-	n, werr := e.p.Write([]byte("late"))
-	vAssert(n == 0 && werr == ErrDone, id+".late-write-is-ErrDone")
+	for i := 0; i < 2; i++ {
+		n, werr := e.p.Write([]byte("late"))
+		vAssert(n == 0 && werr == ErrDone, id+".late-write-is-ErrDone")
+	}
 	if len(bars) > 0 {
 		bars[0].IncrBy(1)
 		bars[0].SetTotal(5, true)
@@ -299,10 +302,18 @@ type vShutDecor struct {
 func (d *vShutDecor) Decor(decor.Statistics) (string, int) { return "", 0 }
 func (d *vShutDecor) OnShutdown()                          { d.notified++ }
 
+// a shutdown listener that is also a moving-average decorator (both roles must be served)
+type vShutEwmaDecor struct {
+	vShutDecor
+	samples int
+}
+
+func (d *vShutEwmaDecor) EwmaUpdate(int64, time.Duration) { d.samples++ }
+
 func vsS4() {
 	mode := vModeParam()
 	e := vNewContainer(mode, -1)
-	l0, l1 := &vShutDecor{}, &vShutDecor{}
+	l0, l1 := &vShutEwmaDecor{}, &vShutDecor{}
 	l0.Init()
 	l1.Init()
 	depth := vParam("wrapDepth")
@@ -374,10 +385,16 @@ func vsS5() {
 		m0.failAt = k
 	case 1:
 		m1.failAt = k
-	default:
+	case 2:
 		e.rec.fail = k // the output writer fails instead
 	}
 	opts0 := []BarOption{BarFillerTrim()}
+	mx := &vMark{width: 100, nl: 1, framesAtFail: -1, rec: e.rec}
+	if which == 3 {
+		// bar 0 has an extender (one extra line per frame) whose k-th call fails
+		mx.failAt = k
+		opts0 = append(opts0, BarExtender(mx, false))
+	}
 	opts1 := []BarOption{BarFillerTrim()}
 	if sync {
 		opts0 = append(opts0, PrependDecorators(vNewSync(vMakeText(1, 0))))
@@ -403,7 +420,7 @@ func vsS5() {
 	e.p.Wait()
 	e.rec.closed = true
 	vAssert((b0 == nil || !b0.IsRunning()) && (b1 == nil || !b1.IsRunning()), "S5.all-bars-cancelled")
-	failed := m0.failAt > 0 && m0.fills >= m0.failAt || m1.failAt > 0 && m1.fills >= m1.failAt || (e.rec.fail > 0 && e.rec.n >= e.rec.fail)
+	failed := m0.failAt > 0 && m0.fills >= m0.failAt || m1.failAt > 0 && m1.fills >= m1.failAt || (e.rec.fail > 0 && e.rec.n >= e.rec.fail) || mx.failAt > 0 && mx.fills >= mx.failAt
 	if failed {
 		vAssert(dbg.n == 1, "S5.error-reported-to-debug-output-exactly-once")
 	} else {
@@ -414,6 +431,9 @@ func vsS5() {
 	}
 	if m1.framesAtFail >= 0 {
 		vAssert(e.rec.n == m1.framesAtFail, "S5.no-frame-in-or-after-the-failing-cycle")
+	}
+	if mx.framesAtFail >= 0 {
+		vAssert(e.rec.n == mx.framesAtFail, "S5.no-frame-in-or-after-the-failing-cycle")
 	}
 	if e.rec.fail > 0 && e.rec.n >= e.rec.fail {
 		vAssert(e.rec.n == e.rec.fail, "S5.no-frame-after-the-failing-write")
@@ -432,19 +452,40 @@ func vsS6() {
 		extra = append(extra, PopCompletedMode())
 	}
 	e := vNewContainer(mode, -1, extra...)
-	late := vParam("successorAfterPredecessorFinished") != 0
+	when := vParam("successorAfterPredecessorFinished")
+	if when == 2 && mode != vManual {
+		when = 0 // "between completion and the last frames" is only a definite point under manual refresh
+	}
+	late := when == 1
+	early := when == 0
 	two := vParam("twoSuccessors") != 0
 	m0, m1, m2, m3 := vNewMark(0), vNewMark(1), vNewMark(2), vNewMark(3)
-	other, _ := e.p.Add(2, m3, BarFillerTrim())
-	pred, _ := e.p.Add(2, m0, BarFillerTrim())
+	syncd := vParam("sync") != 0
+	withSync := func(opts []BarOption, w int) []BarOption {
+		if syncd {
+			opts = append(opts, PrependDecorators(vNewSync(vMakeText(w, 0))))
+		}
+		return opts
+	}
+	other, _ := e.p.Add(2, m3, withSync([]BarOption{BarFillerTrim()}, 1)...)
+	optsPred := withSync([]BarOption{BarFillerTrim()}, 2)
+	if vParam("rmPred") != 0 {
+		optsPred = append(optsPred, BarRemoveOnComplete())
+	}
+	pred, _ := e.p.Add(2, m0, optsPred...)
 	var succ, succ2 *Bar
-	if !late {
-		succ, _ = e.p.Add(2, m1, BarFillerTrim(), BarQueueAfter(pred))
+	if early {
+		succ, _ = e.p.Add(2, m1, withSync([]BarOption{BarFillerTrim(), BarQueueAfter(pred)}, 3)...)
 		if two {
 			succ2, _ = e.p.Add(2, m2, BarFillerTrim(), BarQueueAfter(pred))
 		}
 	}
 	pred.IncrBy(2)
+	if when == 2 {
+		// the predecessor has completed but its last frames have not been drawn yet
+		late = false
+		succ, _ = e.p.Add(2, m1, withSync([]BarOption{BarFillerTrim(), BarQueueAfter(pred)}, 3)...)
+	}
 	if mode == vManual {
 		e.refresh <- nil
 		e.refresh <- nil
@@ -477,7 +518,7 @@ func vsS6() {
 		// the successor is never drawn before the predecessor's last frame: it is drawn fewer times
 		vAssert(m0.fills >= 1, id+".predecessor-was-displayed")
 	}
-	if mode == vAuto && !pop {
+	if mode != vPlain && !pop && !syncd {
 		// the successor takes the predecessor's place: the last frame shows the successor(s) and the other bar
 		last := e.rec.n - 1
 		want := 10 + 1000
@@ -544,12 +585,17 @@ func vsS8() {
 	mode := vModeParam()
 	e := vNewContainer(mode, -1)
 	m0 := vNewMark(0)
-	b0, _ := e.p.Add(2, m0, BarFillerTrim())
+	m0.digit = 3
+	opts0 := []BarOption{BarFillerTrim()}
+	if vParam("completeFirst") == 3 {
+		opts0 = append(opts0, BarRemoveOnComplete())
+	}
+	b0, _ := e.p.Add(2, m0, opts0...)
 	accepted := 0
 	wdone := make(chan struct{})
 	writer := func() {
 		for i := 0; i < 2; i++ {
-			n, err := e.p.Write([]byte(vMakeText(100, 1)))
+			n, err := e.p.Write([]byte(vMarkText(100, 1, i+1)))
 			if err == nil && n == 101 {
 				accepted++
 			} else {
@@ -591,6 +637,28 @@ func vsS8() {
 		rows = m0.fills
 		vAssert(e.rec.n < vMaxFrames, "S8.frames-within-recorder-capacity")
 		vAssert(totalW == 100*accepted+rows && totalNL == accepted+rows, "S8.every-accepted-line-emitted-exactly-once")
+		// order: line 1 before line 2, and within a frame the lines stand above the bar row (mark 3)
+		seen1, seen2 := false, false
+		for i := 0; i < e.rec.n && i < vMaxFrames; i++ {
+			q := e.rec.seq[i]
+			if q%16 == 3 {
+				q /= 16 // the bar row is the last row of the frame
+			}
+			switch q {
+			case 0:
+			case 1:
+				vAssert(!seen1 && !seen2, "S8.lines-in-call-order-above-the-bars")
+				seen1 = true
+			case 2:
+				vAssert(seen1 && !seen2, "S8.lines-in-call-order-above-the-bars")
+				seen2 = true
+			case 0x12:
+				vAssert(!seen1 && !seen2, "S8.lines-in-call-order-above-the-bars")
+				seen1, seen2 = true, true
+			default:
+				vAssert(false, "S8.lines-in-call-order-above-the-bars")
+			}
+		}
 	}
 }
 
@@ -713,7 +781,11 @@ func vsS12() {
 // ---- S13: row order follows priority; priority changes; a successor takes its predecessor's row (C06, C17)
 // Rows carry order marks 1..4 (bars A..D); a frame's fingerprint lists the marks from top to bottom.
 func vsS13() {
-	e := vNewContainer(vManual, -1)
+	var extra []ContainerOption
+	if vParam("case") == 6 {
+		extra = append(extra, PopCompletedMode())
+	}
+	e := vNewContainer(vManual, -1, extra...)
 	e.vTicks()
 	mk := func(d int) *vMark {
 		m := vNewMark(0)
@@ -775,12 +847,34 @@ func vsS13() {
 		e.p.UpdateBarPriority(c, -3, true)
 		e.cycle()
 		vAssert(last() == 0x12, "S13.late-priority-change-of-a-removed-bar-does-nothing")
+	case 5:
+		// a finished bar that stays on screen can still be moved
+		a.IncrBy(2)
+		e.cycle()
+		e.cycle()
+		e.cycle()
+		vAssert(last() == 0x123, "S13.finished-bar-keeps-its-place")
+		a.SetPriority(9)
+		e.cycle()
+		vAssert(last() == 0x231, "S13.priority-change-of-a-finished-bar-that-is-still-displayed")
+	case 6:
+		// pop-completed mode: two bars finish between the same two frames; they rise above the running bar
+		// in the order the container saw them finish (it collects the rows from the bottom up)
+		a.IncrBy(2)
+		b.IncrBy(2)
+		c.IncrBy(2)
+		e.cycle()
+		e.cycle()
+		e.cycle()
+		vAssert(last() == 0x321, "S13.popped-bars-rise-in-finishing-order")
 	}
-	for _, x := range bars {
-		x.IncrBy(2)
+	if which != 6 { // in case 6 every bar has been popped: further cycles write nothing
+		for _, x := range bars {
+			x.IncrBy(2)
+		}
+		e.cycle()
+		e.cycle()
 	}
-	e.cycle()
-	e.cycle()
 	e.vFinish("S13", bars...)
 }
 
@@ -837,4 +931,64 @@ func vsS14() {
 	}
 	e.vFinish("S14", b)
 	vAssert(b.ID() == 0 && b.Current() == 2 && b.Completed(), "S14.final-state")
+}
+
+// ---- S15: render delay and non-terminal output (C04): nothing is written before the delay ends; a container
+// that is neither refreshing nor attached to a terminal writes nothing at all
+func vsS15() {
+	mode := vModeParam()
+	useDelay := vParam("delay") != 0
+	var delay chan struct{}
+	var extra []ContainerOption
+	if useDelay {
+		delay = make(chan struct{})
+		extra = append(extra, WithRenderDelay(delay))
+	}
+	e := vNewContainer(mode, -1, extra...)
+	m0 := vNewMark(0)
+	b, _ := e.p.Add(3, m0, BarFillerTrim())
+	b.IncrBy(1)
+	if mode == vManual {
+		// when the third request has been accepted the first render cycle is complete
+		e.refresh <- nil
+		e.refresh <- nil
+		e.refresh <- nil
+	} else {
+		_ = b.Current()
+		_ = b.Current()
+	}
+	if useDelay {
+		vAssert(e.rec.n == 0, "S15.nothing-written-before-the-render-delay-ends")
+		close(delay)
+	}
+	b.IncrBy(2)
+	if mode == vManual {
+		e.refresh <- nil
+		e.refresh <- nil
+	}
+	e.vFinish("S15", b)
+	if mode == vPlain {
+		vAssert(e.rec.n == 0, "S15.no-output-when-not-a-terminal-and-not-refreshing")
+	}
+}
+
+// ---- S16: containers created, used and waited on one after the other (C16: goroutines do not accumulate)
+func vsS16() {
+	mode := vModeParam()
+	for round := 0; round < 2; round++ {
+		e := vNewContainer(mode, -1)
+		m0 := vNewMark(0)
+		b, _ := e.p.Add(2, m0, BarFillerTrim())
+		if round == 0 {
+			b.IncrBy(2)
+		} else {
+			b.IncrBy(1)
+			b.Abort(false)
+		}
+		if mode == vManual {
+			e.refresh <- nil
+			e.refresh <- nil
+		}
+		e.vFinish("S16", b)
+	}
 }
